@@ -4,39 +4,9 @@ C11 — Chronological order, label order and comparison operators all agree.
 import JulianVerif.Lemmas.Proleptic
 import JulianVerif.Lemmas.YearStart
 import JulianVerif.Lemmas.Order
+import JulianVerif.Lemmas.CalOrder
 namespace JV.C11
 open JV Spec
-
-/-- rank of a calendar in the hand-written `Ord`: Julian < reforming(R) by R < Gregorian -/
-def calKey : Calendar → Int × Int
-  | .julian => (0, 0)
-  | .reforming r _ => (1, r)
-  | .gregorian => (2, 0)
-
-theorem compare_int (a b : Int) :
-    compare a b = if a < b then .lt else if a = b then .eq else .gt := by
-  simp only [compare, compareOfLessAndEq]
-
-theorem compare_int_lt (a b : Int) : compare a b = .lt ↔ a < b := by
-  rw [compare_int]; by_cases h : a < b <;> by_cases h2 : a = b <;> simp [h, h2]
-
-theorem compare_int_eq (a b : Int) : compare a b = .eq ↔ a = b := by
-  rw [compare_int]; by_cases h : a < b <;> by_cases h2 : a = b <;> simp [h, h2] <;> omega
-
-theorem compare_int_gt (a b : Int) : compare a b = .gt ↔ b < a := by
-  rw [compare_int]; by_cases h : a < b <;> by_cases h2 : a = b <;> simp [h, h2] <;> omega
-
-def keyLt (p q : Int × Int) : Prop := p.1 < q.1 ∨ (p.1 = q.1 ∧ p.2 < q.2)
-
-/-- `Calendar::cmp` is the lexicographic order of (tag, reformation) -/
-theorem cal_cmp_lt (a b : Calendar) : a.cmp b = .lt ↔ keyLt (calKey a) (calKey b) := by
-  cases a <;> cases b <;> simp [Calendar.cmp, calKey, keyLt, compare_int_lt]
-
-theorem cal_cmp_eq (a b : Calendar) : a.cmp b = .eq ↔ calKey a = calKey b := by
-  cases a <;> cases b <;> simp [Calendar.cmp, calKey, compare_int_eq]
-
-theorem cal_cmp_gt (a b : Calendar) : a.cmp b = .gt ↔ keyLt (calKey b) (calKey a) := by
-  cases a <;> cases b <;> simp [Calendar.cmp, calKey, keyLt, compare_int_gt]
 
 /-- order axioms for calendars: reflexive, antisymmetric, transitive, total -/
 theorem cal_cmp_refl (a : Calendar) : a.cmp a = .eq := (cal_cmp_eq a a).mpr rfl
